@@ -12,6 +12,7 @@ import (
 	"runtime/pprof"
 	"sort"
 	"strconv"
+	"strings"
 	"time"
 
 	"verif/mc/engine"
@@ -181,6 +182,8 @@ type shardResult struct {
 	Pairs       map[string]int         `json:"pairs"`
 	Findings    map[string]*findingAgg `json:"findings"`
 	Skipped     int                    `json:"skipped_values"`
+	// Reps: per class of admission-accepted sharing request, the smallest example (input of the end-to-end stage)
+	Reps map[string]*findingAgg `json:"reps"`
 }
 
 type worker struct {
@@ -239,6 +242,17 @@ func (w *worker) one(pc podCase, inputClass func() string, order string) {
 	if o.PgcRecvPanic != "" {
 		cnt["panics_recovered_podgroupcontroller_received"]++
 	}
+	if o.AdmAccept && pc.Sharing && (pc.Fraction != nil || pc.Memory != nil) {
+		k := repClass(pc)
+		if a := w.res.Reps[k]; a == nil {
+			w.res.Reps[k] = &findingAgg{Order: order, Example: pc, Count: 1}
+		} else {
+			a.Count++
+			if order < a.Order {
+				a.Order, a.Example = order, pc
+			}
+		}
+	}
 	if !o.trivial() {
 		cnt["nontrivial_evaluations"]++
 		w.res.Pairs[inputClass()+" => "+o.vector()]++
@@ -254,6 +268,25 @@ func (w *worker) one(pc podCase, inputClass func() string, order string) {
 		}
 		a.Count++
 	}
+}
+
+// repClass: the class of an accepted sharing request for the end-to-end stage.
+func repClass(pc podCase) string {
+	t := func(k annKind, p *string) string {
+		if p == nil {
+			return "-"
+		}
+		n, cls := class(k, *p)
+		if k == kDevices && n.Valued {
+			if v, ok := ratInt64(n.Rat); ok && v == 1 {
+				cls += "(=1)"
+			} else if ok && v <= e2eNodeGPUs {
+				cls += "(fits)"
+			}
+		}
+		return cls
+	}
+	return fmt.Sprintf("fraction=%s memory=%s devices=%s named=%s", t(kFraction, pc.Fraction), t(kMemory, pc.Memory), t(kDevices, pc.Devices), pc.Named)
 }
 
 func orderKey(v string, ctx int) string { return fmt.Sprintf("%03d|%q|%04d", len(v), v, ctx) }
@@ -280,7 +313,7 @@ func ctxClass(pc podCase) string {
 func (g gridCtx) core() bool { return g.Limit == "none" && g.Named == "absent" }
 
 func runShard(idx, n int, b bounds, budget *engine.Budget) *shardResult {
-	w := &worker{c: newComponents(), res: &shardResult{Shard: idx, Counters: map[string]int{}, Pairs: map[string]int{}, Findings: map[string]*findingAgg{}}}
+	w := &worker{c: newComponents(), res: &shardResult{Shard: idx, Counters: map[string]int{}, Pairs: map[string]int{}, Findings: map[string]*findingAgg{}, Reps: map[string]*findingAgg{}}}
 	ctxs := contexts()
 	// which: 'a' = all contexts, 'c' = core contexts only, 'r' = the rest (non-core) only
 	doValue := func(v string, which byte) {
@@ -427,9 +460,9 @@ func run(tier string) int {
 	start := time.Now()
 	workers := envInt("VERIF_WORKERS", max(1, min(runtime.NumCPU(), 16)))
 	rep := engine.NewReporter("C19")
-	total := &shardResult{Counters: map[string]int{}, Pairs: map[string]int{}, Findings: map[string]*findingAgg{}}
+	total := &shardResult{Counters: map[string]int{}, Pairs: map[string]int{}, Findings: map[string]*findingAgg{}, Reps: map[string]*findingAgg{}}
 	shards := 0
-	err := engine.RunWorkers(workers, nil, 4*1024*1024, func(_ int, line []byte) {
+	err := engine.RunWorkers(workers, []string{"GOGC=400"}, 4*1024*1024, func(_ int, line []byte) {
 		var r shardResult
 		if err := json.Unmarshal(line, &r); err != nil || r.Counters == nil {
 			return
@@ -442,6 +475,18 @@ func run(tier string) int {
 		}
 		for k, v := range r.Pairs {
 			total.Pairs[k] += v
+		}
+		for k, f := range r.Reps {
+			a := total.Reps[k]
+			if a == nil {
+				c := *f
+				total.Reps[k] = &c
+				continue
+			}
+			a.Count += f.Count
+			if f.Order < a.Order {
+				a.Order, a.Example = f.Order, f.Example
+			}
 		}
 		for k, f := range r.Findings {
 			a := total.Findings[k]
@@ -465,8 +510,53 @@ func run(tier string) int {
 		return 2
 	}
 
-	// confirm every candidate 5x from its replay input before reporting it (determinism discipline)
 	comp := newComponents()
+	// ---- end-to-end stage: one real scheduler cycle + real binder PreBind per class of accepted sharing request
+	repKeys := make([]string, 0, len(total.Reps))
+	for k := range total.Reps {
+		repKeys = append(repKeys, k)
+	}
+	sort.Strings(repKeys)
+	e2eSamples := []any{}
+	e2eVectors := map[string]bool{}
+	for i, k := range repKeys {
+		r := total.Reps[k]
+		e := comp.endToEnd(r.Example)
+		if e.CycleErr != "" {
+			fmt.Fprintf(os.Stderr, "harness error: end-to-end cycle failed for %s: %s\n", r.Example, e.CycleErr)
+			return 2
+		}
+		total.Counters["e2e_cycles"]++
+		if e.Bound {
+			total.Counters["e2e_bindrequests_created"]++
+		}
+		if e.Bound && e.RecvType == "Fraction" {
+			total.Counters["e2e_bindrequests_shared"]++
+		}
+		if e.CapData != nil && e.EvarExists {
+			total.Counters["e2e_configmaps_materialised"]++
+		}
+		e2eVectors[e.vector()] = true
+		fs := judgeE2E(r.Example, e)
+		for _, f := range fs {
+			a := total.Findings[f.Key]
+			if a == nil {
+				a = &findingAgg{Order: r.Order, Example: r.Example, Msg: f.Msg}
+				total.Findings[f.Key] = a
+			} else if r.Order < a.Order {
+				a.Order, a.Example, a.Msg = r.Order, r.Example, f.Msg
+			}
+			a.Count++
+		}
+		if i%max(1, len(repKeys)/6) == 0 || (len(fs) > 0 && len(e2eSamples) < 8) {
+			keys := []string{}
+			for _, f := range fs {
+				keys = append(keys, f.Key)
+			}
+			e2eSamples = append(e2eSamples, map[string]any{"class": k, "pod": r.Example, "accepted_pods_in_class": r.Count, "end_to_end": e.vector(), "oracle": keys})
+		}
+	}
+	// confirm every candidate 5x from its replay input before reporting it (determinism discipline)
 	keys := make([]string, 0, len(total.Findings))
 	for k := range total.Findings {
 		keys = append(keys, k)
@@ -477,7 +567,13 @@ func run(tier string) int {
 		f := total.Findings[k]
 		for i := 0; i < 5; i++ {
 			found := false
-			for _, g := range judge(f.Example, comp.evaluate(f.Example)) {
+			var fs []finding
+			if strings.HasPrefix(k, "C19/e2e-") {
+				fs = judgeE2E(f.Example, comp.endToEnd(f.Example))
+			} else {
+				fs = judge(f.Example, comp.evaluate(f.Example))
+			}
+			for _, g := range fs {
 				if g.Key == k {
 					found = true
 				}
@@ -555,6 +651,12 @@ func run(tier string) int {
 			"block C: all ordered pairs of the %d boundary literals as (gpu-fraction, devices) and (gpu-memory, devices), default container, no limit, sharing enabled. "+
 			"Pod: containers main+sidecar, init container init0, schedulerName kai-scheduler; admission plugins gpusharing + runtimeenforcement(nvidia) behind the real podhooks mutator/validator.",
 			maxLen, len(alphabet), alphabet, nEnum, repFraction, repMemory, repDevices, nCore, bnd.FullLen, numEnumerated(bnd.FullLen), nLit, wholeGPUs, nCtx, len(literals)),
+		"end_to_end_stage": map[string]any{
+			"what":             "for the smallest member of every class of admission-accepted sharing request (class = reference classes of the three annotation values x named container): real mutating webhook -> ONE real scheduler cycle (schedrun.RunCycle) on an empty node with 4 GPUs x 16384 MiB -> the BindRequest the scheduler created -> real binder gpusharing plugin PreBind on a controller-runtime fake client -> the config maps the admitted container reads",
+			"classes":          len(repKeys),
+			"distinct_results": len(e2eVectors),
+			"samples":          e2eSamples,
+		},
 		"component_counts":   total.Counters,
 		"violation_keys":     violationSummary,
 		"known_finding_hits": rep.KnownHits(),
@@ -583,7 +685,8 @@ func run(tier string) int {
 	c := total.Counters
 	if c["admission_accepted_sharing_requests"] < 1000 || c["scheduler_sees_sharing_request_and_admission_accepted"] < 1000 ||
 		c["scheduler_sees_sharing_request_and_admission_rejected"] == 0 || c["scheduler_sees_whole_gpu_request"] == 0 ||
-		c["mutations_injecting_env"] < 1000 || c["podgroupcontroller_received_ok"] == 0 || len(total.Pairs) < 20 {
+		c["mutations_injecting_env"] < 1000 || c["podgroupcontroller_received_ok"] == 0 || len(total.Pairs) < 20 ||
+		c["e2e_bindrequests_shared"] < 10 || c["e2e_configmaps_materialised"] < 10 {
 		fmt.Fprintf(os.Stderr, "harness error: vacuous exploration: %v\n", c)
 		return 2
 	}
@@ -613,7 +716,13 @@ func replay(path string) int {
 	fmt.Printf("pod: %s\noutcome: %s\n", v.Replay.Pod, o.vector())
 	fmt.Printf("observed: %+v\n", *o)
 	found := false
-	for _, f := range judge(v.Replay.Pod, o) {
+	fs := judge(v.Replay.Pod, o)
+	if o.AdmAccept && (v.Replay.Pod.Fraction != nil || v.Replay.Pod.Memory != nil) {
+		e := comp.endToEnd(v.Replay.Pod)
+		fmt.Printf("end-to-end: %s\n", e.vector())
+		fs = append(fs, judgeE2E(v.Replay.Pod, e)...)
+	}
+	for _, f := range fs {
 		fmt.Printf("  oracle: %s: %s\n", f.Key, f.Msg)
 		if f.Key == v.Key {
 			found = true
